@@ -156,6 +156,15 @@ class NativeSym(object):
     def has_digit_run(self, s, k):
         return any(all("0" <= ch <= "9" for ch in s[i:i + k]) for i in range(len(s) - k + 1))
 
+    def scratch_dir(self):
+        import tempfile
+        import atexit
+        import shutil
+        d = tempfile.mkdtemp(prefix="psx-scratch-")
+        atexit.register(shutil.rmtree, d, True)
+        self._scratch = getattr(self, "_scratch", []) + [d]
+        return d
+
     def same(self, a, b):
         """structural equality of plain data (texts, numbers, containers)"""
         return a == b and type(a) is type(b) if isinstance(a, (bool, int)) and isinstance(b, (bool, int)) else a == b
@@ -181,6 +190,9 @@ def run_native(fn, inputs, params):
     except Exception as e:
         import traceback
         res["exception"] = {"type": type(e).__name__, "message": str(e)[:500], "traceback": traceback.format_exc()[-2000:]}
+    import shutil
+    for d in getattr(sym, "_scratch", []):
+        shutil.rmtree(d, True)
     res["failed"] = sym.failed
     res["covers"] = sym.covers
     res["checks"] = sym.checks
